@@ -92,6 +92,11 @@ pub mod upgrade;
 mod version;
 mod writer;
 
+#[cfg(feature = "verif-hooks")]
+pub mod verif;
+#[cfg(feature = "verif-hooks")]
+pub use parallel::ConcurrentNodeIds;
+
 #[cfg(test)]
 mod tests;
 mod unaligned_vector;
